@@ -1128,6 +1128,8 @@ class Interp:
             c = self.container(base.ref)
             if isinstance(c, DConc):
                 k = self.pyconst(idx)
+                if k is MISSING and c.get(idx) is not None:
+                    return c.get(idx)
                 if k is MISSING:
                     # symbolic key over concrete dict: compare against each key
                     for kk, vv in c.entries:
@@ -1223,7 +1225,8 @@ class Interp:
         if len(n.generators) != 1:
             raise Unsupported("nested comprehension")
         g = n.generators[0]
-        items = self.iter_conc(self.eval(g.iter))
+        from . import builtins_ as B
+        items = B._conc_iter(self, self.eval(g.iter))
         out = []
         saved = dict(self.env)
         for it in items:
@@ -1242,7 +1245,8 @@ class Interp:
         if len(n.generators) != 1:
             raise Unsupported("nested comprehension")
         g = n.generators[0]
-        items = self.iter_conc(self.eval(g.iter))
+        from . import builtins_ as B
+        items = B._conc_iter(self, self.eval(g.iter))
         d = DConc(())
         saved = dict(self.env)
         for it in items:
